@@ -249,6 +249,22 @@ func c09routing(c *runner.Ctx, i int) {
 				c.Violation("C09:routing-key:after-Bind:stale", fmt.Sprintf("after Query.Bind with new values GetRoutingKey = %x (%s), Cassandra's partition key bytes are %x (%s)", clip(got2), what, clip(want2), key), wit)
 			}
 		}
+		// the same values given by name, in another order than the bind markers (the server binds them by name): either
+		// no routing key at all (the policy then falls back), or the right one - never the bytes of some other column
+		if version >= 3 && total >= 2 {
+			perm2 := r.Perm(total)
+			named := make([]interface{}, total)
+			for x, pos := range perm2 {
+				named[x] = gocql.NamedValue(st.cols[pos].Name, args[pos])
+			}
+			var gotN []byte
+			var errN error
+			c.Guard("Query.GetRoutingKey", func() { gotN, errN = sess.Query(stmt, named...).GetRoutingKey() })
+			c.Add("named_values_out_of_marker_order", 1)
+			if errN == nil && gotN != nil && !bytes.Equal(gotN, want) {
+				c.Violation("C09:routing-key:named-values:wrong-key", fmt.Sprintf("with the values given by name in the order %v, GetRoutingKey = %x; Cassandra's partition key bytes are %x (%s)", perm2, clip(gotN), clip(want), key), wit)
+			}
+		}
 		// a second call (cached routing info) and the batch form
 		q2 := sess.Query(stmt, args...)
 		got, gerr = q2.GetRoutingKey()
